@@ -80,6 +80,10 @@ def cases(draw):
         # how long the submission call itself takes, per execution (the notification may arrive inside it)
         "submit_delays": [draw(st.sampled_from([0, 0, 0, 1.5, 4.0])) for _ in range(draw(st.integers(0, 4)))],
         "check_output": draw(st.sampled_from([None, True, False])),
+        # a quarter of the cases: some of the first looks at a producer's working directory fail (transient
+        # FilesystemInconsistencyError, which the engine is written to ride out)
+        "listing_faults": sorted(draw(st.sets(st.integers(0, 7), min_size=1, max_size=3)))
+        if draw(st.integers(0, 3)) == 0 else [],
     }
 
 
@@ -130,6 +134,12 @@ def check(case, ctx: Ctx):
     # (b) the final output is observed
     # ("unless ... it was never able to consume": some same-stage producer never produced anything)
     able = case["has_producer"] and all(outs for _, outs in gates)
+    if sim.listing_faults_raised:
+        # the statement quantifies over outcomes, notification times and output availability, not over file system
+        # faults: when a look at a producer's folder failed, the engine could not tell whether it was able to consume;
+        # only (a), (c) and (d) are checked for these runs
+        able = False
+        ctx.rec.label("final-observation-not-checked:listing-fault")
     if (able and O and Tn is not None and not ext_killed and L <= died_at):
         if not any(s >= L for n, s in launches):
             if short_delay:
@@ -172,6 +182,8 @@ def check(case, ctx: Ctx):
     if p2:
         labels.append("two-producers:%s" % ("same-stage" if p2["stage"] == 0 else "other-stage"))
     labels.append("launches=%s" % ("0" if not launches else "1" if len(launches) == 1 else "2+"))
+    if case.get("listing_faults"):
+        labels.append("listing-faults:raised" if sim.listing_faults_raised else "listing-faults:never-reached")
     ctx.rec.label(*labels)
     if in_task or near_output or failed_after:
         ctx.rec.nt(["c13", case], {"case": case, "launches": launches, "task_ends": sim.task_ends,
